@@ -51,12 +51,12 @@ func genC17(r *h.Rng, tier string, idx int) *h.Plan {
 		if r.P(1, 12) {
 			l = "ghost" // never created
 		}
-		weights := []int{8, 3, 5, 5, 3, 1, 2, 4, 1, 1, 4, 1, 0, 0}
+		weights := []int{8, 3, 5, 5, 3, 1, 2, 4, 1, 1, 4, 1, 0, 0, 1}
 		if churn {
 			// parent churn: the parent list is an ordinary property fact, so it
 			// changes through SetParents, Clear, a written "!parents" fact and the
 			// removal of that fact; inherited reads in between
-			weights = []int{6, 1, 2, 7, 2, 1, 1, 3, 5, 3, 3, 4, 2, 2}
+			weights = []int{6, 1, 2, 7, 2, 1, 1, 3, 5, 3, 3, 4, 2, 2, 1}
 		}
 		switch r.Weighted(weights) {
 		case 0:
@@ -109,6 +109,12 @@ func genC17(r *h.Rng, tier string, idx int) *h.Plan {
 			p.Ops = append(p.Ops, h.Op{K: "addfact", Loc: locs[i0], J: map[string]interface{}{"!parents": []interface{}{locs[i0+1]}}})
 		case 13:
 			p.Ops = append(p.Ops, h.Op{K: "remfact", Loc: locs[r.Intn(len(locs)-1)], Id: "!.parents"})
+		case 14:
+			// the location is deleted (and, where existence is checked, created again by a later "create")
+			p.Ops = append(p.Ops, h.Op{K: "delete", Loc: l})
+			if r.Bool() {
+				p.Ops = append(p.Ops, h.Op{K: "create", Loc: l})
+			}
 		}
 	}
 	return p
@@ -120,6 +126,9 @@ type c17Twin struct {
 	core  *h.CoreEngine
 	store *h.SimStorage
 	ce    bool
+	// dropped: this engine met the recorded uncreated-parent finding and its
+	// state no longer corresponds to its reference twin's
+	dropped bool
 }
 
 func opToReq(op h.Op) hs.Req {
@@ -214,6 +223,11 @@ func doCore(e *h.CoreEngine, r hs.Req) (out string) {
 			return "ERR"
 		}
 		return "ok"
+	case "delete":
+		if err := loc.Delete(ctx); err != nil {
+			return "ERR"
+		}
+		return "ok"
 	case "getparents":
 		ps, err := loc.GetParents(ctx)
 		if err != nil {
@@ -236,19 +250,39 @@ func execC17(t *testing.T, plan *h.Plan, trace bool) *h.Result {
 			res.Viol = &h.Violation{Property: "C17", Class: class, Sig: state + ":" + sig, Detail: fmt.Sprintf(f, a...), OpIdx: opIdx}
 		}
 	}
+	// soft: a violation that the known-findings file lists is counted and the run goes on
+	soft := func(class, sig, f string, a ...interface{}) {
+		v := &h.Violation{Property: "C17", Class: class, Sig: state + ":" + sig, Detail: fmt.Sprintf(f, a...), OpIdx: opIdx}
+		if k := h.IsKnown(h.KnownList, v); k != nil {
+			if res.Known == nil {
+				res.Known = map[string]int64{}
+			}
+			res.Known[k.Class+" "+k.Sig]++
+			return
+		}
+		if res.Viol == nil {
+			res.Viol = v
+		}
+	}
 	out := h.Bubble(t, func() {
 		h.SeedProcess(plan.RunSeed)
 		h.ResetParams()
 		start := time.Now()
 		var twins []*c17Twin
-		// the direct twin: bare locations, no cache
-		{
+		// the direct twins: bare locations, no cache.  The second one stands for a
+		// System that checks existence: a request to a location that is not
+		// (or no longer) created is refused and has no effect.
+		for _, checks := range []bool{false, true} {
 			back := h.NewBackend("mem")
 			ce := h.NewCoreEngine(state, back, h.QuietControl())
 			// the same state hooks a System installs
 			dc := hs.NewSimCron(true)
 			ce.OnNewState = func(ctx *core.Context, name string, st core.State) { cron.AddHooks(ctx, dc, st) }
-			twins = append(twins, &c17Twin{name: "direct", core: ce})
+			name := "direct"
+			if checks {
+				name = "direct+existence"
+			}
+			twins = append(twins, &c17Twin{name: name, core: ce, ce: checks})
 		}
 		for _, ttl := range []time.Duration{sys.Never, time.Millisecond, sys.Forever} {
 			for _, ce := range []bool{false, true} {
@@ -268,6 +302,7 @@ func execC17(t *testing.T, plan *h.Plan, trace bool) *h.Result {
 			}
 		}
 		created := map[string]bool{}
+		everParent := map[string]bool{} // locations that some location has named as a parent
 		for i, op := range plan.Ops {
 			opIdx = i
 			if res.Viol != nil {
@@ -281,10 +316,28 @@ func execC17(t *testing.T, plan *h.Plan, trace bool) *h.Result {
 			if op.K == "create" {
 				created[op.Loc] = true
 			}
+			if op.K == "setparents" {
+				for _, pn := range op.L {
+					everParent[pn] = true
+				}
+			}
+			if op.K == "addfact" {
+				if ps, ok := op.Map()["!parents"].([]interface{}); ok {
+					for _, pn := range ps {
+						if sn, ok := pn.(string); ok {
+							everParent[sn] = true
+						}
+					}
+				}
+			}
 			results := make([]string, len(twins))
 			for k, tw := range twins {
 				if tw.core != nil {
-					results[k] = doCore(tw.core, req)
+					if tw.ce && !created[op.Loc] && op.K != "create" {
+						results[k] = "ERR" // refused, no effect
+					} else {
+						results[k] = doCore(tw.core, req)
+					}
 				} else {
 					func() {
 						defer func() {
@@ -300,11 +353,33 @@ func execC17(t *testing.T, plan *h.Plan, trace bool) *h.Result {
 				tr = append(tr, fmt.Sprintf("[+%v] op %d: %s -> %v", time.Since(start), i, op.String(), results))
 			}
 			for k, tw := range twins {
-				if k == 0 {
+				if tw.core != nil || tw.dropped {
 					continue
 				}
 				want := results[0]
+				if tw.ce {
+					want = results[1]
+				}
 				if tw.ce && !created[op.Loc] && op.K != "create" {
+					if everParent[op.Loc] {
+						// A location that was never created (or was deleted) but is named
+						// as a parent is opened, unchecked, on behalf of its children and
+						// stays in the cache: recorded finding, classified by this route.
+						served := results[k] != "ERR"
+						cached := false
+						for _, c := range tw.svc.Sys.GetCachedLocations(h.NewCtx(h.Prot{})) {
+							if c == op.Loc {
+								cached = true
+							}
+						}
+						if served || cached {
+							soft("uncreated-parent-served", "ce:named-as-parent", "%s: %s on %q, which was never created (or was deleted) but is named as a parent: result %s, cached %v", tw.name, op.K, op.Loc, results[k], cached)
+							if served {
+								tw.dropped = true // it has applied what its reference refused: no longer comparable
+							}
+						}
+						continue
+					}
 					// existence checking: a request to a location that was never created fails ...
 					if results[k] != "ERR" {
 						fail("uncreated-location-served", "ce:"+op.K, "%s: %s on the never-created location %q returned %s", tw.name, op.K, op.Loc, results[k])
@@ -325,6 +400,9 @@ func execC17(t *testing.T, plan *h.Plan, trace bool) *h.Result {
 				}
 			}
 			res.Nontrivial = append(res.Nontrivial, op.K+"|"+results[0])
+			if op.K == "delete" {
+				created[op.Loc] = false // a deleted location has to be created again before it serves
+			}
 		}
 		res.SimNanos = int64(time.Since(start))
 		loads := int64(0)
